@@ -23,6 +23,10 @@ static DATA: &[u8] = b"payload";
 
 type BoxFut = Pin<Box<dyn Future<Output = std::io::Result<usize>> + Send>>;
 
+async fn sync_as_usize(fd: &'static a10::AsyncFd) -> std::io::Result<usize> {
+    fd.sync_data().await.map(|()| 0)
+}
+
 /// A buffer whose `parts` panics: the fill closure of its submission unwinds in the middle of
 /// `Submissions::add` (slot reset, nothing filled). Nothing may reach the kernel for it.
 struct FaultyBuf;
@@ -34,6 +38,13 @@ unsafe impl a10::io::Buf for FaultyBuf {
 
 fn is_faulty(p: u64) -> bool {
     p >= 1000
+}
+
+/// Payloads divisible by 3 are `sync_data` operations (FSYNC with the DATASYNC flag), the others
+/// writes: two kinds of entries that set different fields, so that an entry written over an
+/// entry of the other kind without a reset is visible ("unmodified" part of the property).
+fn is_sync(p: u64) -> bool {
+    p % 3 == 0 && !is_faulty(p)
 }
 
 fn payload_fd(p: u64) -> i32 {
@@ -57,7 +68,14 @@ pub fn one_case(r: &mut Rng, silent: &Arc<Mutex<Option<String>>>) -> Case {
     let prefix: Vec<usize> = (0..80).map(|_| if r.below(100) < preempt { 1 + r.below(2) as usize } else { 0 }).collect();
 
     simk::configure(simk::SetupConfig { sq_start: start, cq_start: r.next() as u32, ..Default::default() });
-    let ring = a10::Ring::config().with_submission_queue_size(len).build().expect("ring on the simulated kernel");
+    // The ring mode does not change how entries are queued: any thread may queue on any ring
+    // (single issuer only restricts who enters the kernel).
+    // (Kernel-thread rings pass to_submit = 0 to enter, which the model's last observation does
+    // not cover: default and single-issuer rings only.)
+    let mode = r.below(3);
+    let cfg = a10::Ring::config().with_submission_queue_size(len);
+    let cfg = if mode == 1 { cfg.single_issuer() } else { cfg };
+    let ring = cfg.build().expect("ring on the simulated kernel");
     let ring_fd = simk::with(|s| s.fd);
     let sq = ring.sq();
     let wakes = WakeLog::default();
@@ -67,7 +85,13 @@ pub fn one_case(r: &mut Rng, silent: &Arc<Mutex<Option<String>>>) -> Case {
         let fd = Box::new(ManuallyDrop::new(unsafe { a10::AsyncFd::from_raw_fd(payload_fd(p), sq.clone()) }));
         let fd_ref: &'static a10::AsyncFd = unsafe { &*(&**fd as *const a10::AsyncFd) };
         all_fds.push(fd);
-        if is_faulty(p) { Box::pin(fd_ref.write(FaultyBuf)) } else { Box::pin(fd_ref.write(DATA)) }
+        if is_faulty(p) {
+            Box::pin(fd_ref.write(FaultyBuf))
+        } else if is_sync(p) {
+            Box::pin(sync_as_usize(fd_ref))
+        } else {
+            Box::pin(fd_ref.write(DATA))
+        }
     };
     let mut kept: Vec<BoxFut> = Vec::new();
     // Pre-fill from this (unmanaged) thread: program of a virtual thread that already finished.
@@ -331,6 +355,7 @@ pub fn one_case(r: &mut Rng, silent: &Arc<Mutex<Option<String>>>) -> Case {
     let preemptions = out.trace.iter().filter(|t| t.2).count();
     let tags = vec![
         format!("sq_len:{len}"),
+        format!("ring_mode:{}", ["default", "single_issuer", "default"][mode as usize]),
         format!("threads:{n_threads}"),
         format!("preemptions:{}", preemptions.min(6)),
         format!("tail_wraps:{wraps}"),
@@ -340,9 +365,21 @@ pub fn one_case(r: &mut Rng, silent: &Arc<Mutex<Option<String>>>) -> Case {
     Case { coq, obs: full_obs, json, oracle, known: None, tags, nontrivial: preemptions > 0 || !parked.is_empty() }
 }
 
+/// The payload of an entry the kernel sees, when the entry is byte for byte what a fill of a
+/// freshly reset slot produces for that payload (every field the operation does not set is 0);
+/// -7 for anything else (torn, stale, or carrying left-overs of an earlier entry).
 fn canon(sqe: &abi::Sqe) -> i128 {
-    if sqe.opcode == abi::OP_WRITE && sqe.fd >= 1_000_000 && sqe.len == DATA.len() as u32 && sqe.addr == DATA.as_ptr() as u64 && sqe.user_data > 3 {
-        (sqe.fd - 1_000_000) as i128
+    if sqe.fd < 1_000_000 || sqe.user_data <= 3 {
+        return -7;
+    }
+    let p = (sqe.fd - 1_000_000) as u64;
+    let want = if is_sync(p) {
+        abi::Sqe { opcode: abi::OP_FSYNC, flags: 0, ioprio: 0, fd: sqe.fd, off: 0, addr: 0, len: 0, op_flags: 1 /* IORING_FSYNC_DATASYNC */, user_data: sqe.user_data, buf_index: 0, personality: 0, file_index: 0, addr3: 0, pad2: 0 }
+    } else {
+        abi::Sqe { opcode: abi::OP_WRITE, flags: 0, ioprio: 0, fd: sqe.fd, off: u64::MAX, addr: DATA.as_ptr() as u64, len: DATA.len() as u32, op_flags: 0, user_data: sqe.user_data, buf_index: 0, personality: 0, file_index: 0, addr3: 0, pad2: 0 }
+    };
+    if *sqe == want {
+        p as i128
     } else {
         -7
     }
